@@ -370,7 +370,7 @@ def case_lists(ctx, rseed):
 
 def workload(tier, seed):
     q = tier == "quick"
-    for i in range(4 if q else 40):
+    for i in range(4 if q else 200):
         yield "transformations", {"rseed": seed * 100 + i, "maxchain": 4}
     for i in range(2 if q else 8):
         yield "families", {"rseed": seed * 100 + i}
